@@ -4,11 +4,11 @@ go 1.22.0
 
 toolchain go1.23.5
 
-require github.com/remieven/ysgo v0.0.0
-
 require (
-	github.com/antlr4-go/antlr/v4 v4.13.1 // indirect
-	golang.org/x/exp v0.0.0-20240808152545-0cdaa3abc0fa // indirect
+	github.com/antlr4-go/antlr/v4 v4.13.1
+	github.com/remieven/ysgo v0.0.0
 )
+
+require golang.org/x/exp v0.0.0-20240808152545-0cdaa3abc0fa // indirect
 
 replace github.com/remieven/ysgo => /repo
